@@ -206,6 +206,41 @@ def correspondence(ctx):
                     dis.append(f"{bname} on {layout} records {names}+{extra} with missing single fields: {why}"[:400])
                     fails.append({"key": f"missing-values:{bname}", "what": dis[-1], "code": None})
     kinds += n_missing
+    # the INPUT FORMS of vector.array agree with each other: dict of columns (arrays or lists), records + dtype= keyword, records + dtype
+    # as the second positional argument (numpy.array's signature), and the VectorNumpy/MomentumNumpy classes called directly
+    n_forms = 0
+    for names in documented_sets():
+        rows = [tuple(VAL[n] + 0.5 * i for n in names) for i in range(3)]
+        dt = [(n, numpy.float64) for n in names]
+        ref = vector.array({n: numpy.array([row[j] for row in rows]) for j, n in enumerate(names)})
+        want = (type(ref).__name__, tuple(ref.dtype.names), ref.view(numpy.ndarray).tolist())
+        dim = len(names)
+        mom = type(ref).__name__.startswith("Momentum")
+        direct = getattr(vector, ("MomentumNumpy" if mom else "VectorNumpy") + f"{dim}D")
+        forms = {"dict of lists": lambda: vector.array({n: [row[j] for row in rows] for j, n in enumerate(names)}),
+                 "records, dtype= keyword": lambda: vector.array(rows, dtype=dt),
+                 "records, dtype positional": lambda: vector.array(rows, dt),
+                 "records, dtype= numpy.dtype object": lambda: vector.array(rows, dtype=numpy.dtype(dt)),
+                 type(ref).__name__ + "(records, dtype=)": lambda: direct(rows, dtype=dt),
+                 type(ref).__name__ + "(dict)": lambda: direct({n: numpy.array([row[j] for row in rows]) for j, n in enumerate(names)})}
+        for fname, f_ in forms.items():
+            n_forms += 1
+            try:
+                a = f_()
+                got = (type(a).__name__, tuple(a.dtype.names), a.view(numpy.ndarray).tolist())
+                why = f"gives {got[0]}{list(got[1])} {got[2][:1]}"
+            except Exception as e:  # noqa: BLE001
+                got, why = None, f"raises {type(e).__name__}: {str(e)[:80]}"
+            if got != want:
+                dis.append(f"vector.array form `{fname}` with names {names}: {why}; the dict-of-columns form gives {want[0]}{list(want[1])} {want[2][:1]}"[:400])
+                fails.append({"key": f"array-form:{fname.split(',')[-1].strip()[:30]}", "what": dis[-1], "code": (
+                    "import vector, numpy\nnames = %r\nrows = %r\ndt = [(n, numpy.float64) for n in names]\n"
+                    "ref = vector.array({n: numpy.array([r[j] for r in rows]) for j, n in enumerate(names)})\n"
+                    "for a in (vector.array(rows, dtype=dt), vector.array(rows, dt)):\n"
+                    "    assert type(a) is type(ref) and a.dtype.names == ref.dtype.names and a.tolist() == ref.tolist(), (type(a).__name__, a.dtype.names, type(ref).__name__)\n"
+                    % (names, rows))})
+                break
+    kinds += n_forms
     kinds_dist = {}
     for a in reals:
         kinds_dist[a.split()[0]] = kinds_dist.get(a.split()[0], 0) + 1
